@@ -60,6 +60,8 @@ Definition dec_hop (l : list Z) : hop * list Z :=
   | 8 :: t => let '(p, r) := dec_pev t in (HPodAdd p, r)
   | 9 :: t => let '(o, r) := dec_pev t in let '(p, r') := dec_pev r in (HPodUpdate o p, r')
   | 10 :: t => let '(p, r) := dec_pev t in (HPodDelete p, r)
+  | 11 :: t => let '(s, r) := dec_spec t in (HReserveRsv s (hdZ r), tl r)
+  | 12 :: t => let '(s, r) := dec_spec t in (HUnreserveRsv s (hdZ r), tl (tl r))
   | _ => (HRsvRemove 0 0, [])
   end.
 
